@@ -437,3 +437,42 @@ if __name__ == "__main__":
     from vf import runner
 
     sys.exit(runner.main("checks.c09", sys.argv[1:]))
+
+
+# =====================================================================================================================
+# run: re-phasing through run_whatshap as a whole (real VcfReader -> ... -> real PhasedVcfWriter), see checks/phase_run.py
+# =====================================================================================================================
+from checks import phase_run as _pr
+
+
+class Run(_pr.PhaseRun):
+    """C09, last clause, on the whole command: after re-phasing an already phased file every phase statement (phased GT, PS
+    value, HP value) of a target sample on a processed chromosome sits at a variant the new run handed to the solver for
+    that sample - whether or not the sample had reads there."""
+
+    def filter_shapes(self, shapes):
+        return [s for s in shapes if s["old"] is not None and not s["distrust"]]
+
+    def judge(self, e, sc, shape, out, lists, info):
+        targets, processed = self.targets(sc), self.processed(sc)
+        for ri, ro in zip(sc.doc["records"], out["records"]):
+            if ri["chrom"] not in processed:
+                continue
+            for si, s in enumerate(_pr.SAMPLES):
+                if s not in targets:
+                    continue
+                co = ro["calls"][si]
+                if self.phase_statement(co):
+                    new = (ri["pos"] - 1) in sc.given.get((ri["chrom"], s), [])
+                    if new:
+                        e.cover("phase statement written by the new run")
+                    e.check(new, "after re-phasing, a target call still makes a phase statement although the new run did not phase that variant for this sample (old phase information survives)",
+                            lambda: dict(info(), record=(ri["chrom"], ri["pos"]), sample=s, reads_of_that_sample_on_the_chromosome=sc.reads.get((ri["chrom"], s)), usable_variant=sc.usable(ri)))
+
+    def classify(self, shape, v):
+        i = v.get("info") or {}
+        return "run:%s:reads=%s:usable=%s" % (v["msg"][:60], i.get("reads_of_that_sample_on_the_chromosome"), i.get("usable_variant"))
+
+
+Run.required_cover = _pr.PhaseRun.required_cover + ["phase statement written by the new run"]
+SUBCHECKS["run"] = Run()
